@@ -1305,12 +1305,29 @@ func stripSensitiveHeadersOnRedirect(req *Request, initialHost []byte, redirectU
 		return
 	}
 
-	req.Header.Del(HeaderAuthorization)
-	req.Header.Del(HeaderCookie)
-	req.Header.Del(HeaderCookie2) // Match net/http behavior.
-	req.Header.Del(HeaderProxyAuthenticate)
-	req.Header.Del(HeaderProxyAuthorization)
-	req.Header.Del(HeaderWWWAuthenticate)
+	delSensitiveHeader(&req.Header, HeaderAuthorization)
+	delSensitiveHeader(&req.Header, HeaderCookie)
+	delSensitiveHeader(&req.Header, HeaderCookie2) // Match net/http behavior.
+	delSensitiveHeader(&req.Header, HeaderProxyAuthenticate)
+	delSensitiveHeader(&req.Header, HeaderProxyAuthorization)
+	delSensitiveHeader(&req.Header, HeaderWWWAuthenticate)
+}
+
+// delSensitiveHeader deletes the header with the given name regardless of
+// how its name is spelled. Header names are case-insensitive on the wire,
+// but RequestHeader.Del matches the stored name exactly when header name
+// normalizing is disabled, so "authorization" would survive Del("Authorization").
+func delSensitiveHeader(h *RequestHeader, key string) {
+	h.Del(key)
+	if !h.disableNormalizing {
+		return
+	}
+	for i := 0; i < len(h.h); i++ {
+		if bytes.EqualFold(h.h[i].key, s2b(key)) {
+			h.DelBytes(h.h[i].key) // DelBytes copies the key before deleting
+			i = -1
+		}
+	}
 }
 
 // shouldStripSensitiveHeadersOnRedirect defines the trust boundary for
